@@ -89,4 +89,8 @@ func VerifH_C01_CRed() {
 	r := CRed(a, q)
 	vAssert(r < q, "CRed-range")
 	vAssert(r == a || r == a-q, "CRed-value")
+	// unrestricted input: one conditional subtraction, nothing else
+	b := vU64("b")
+	rb := CRed(b, q)
+	vAssert((b >= q && rb == b-q) || (b < q && rb == b), "CRed-any-input-subtracts-q-at-most-once")
 }
